@@ -19,8 +19,26 @@ class DummyGenefinding:
         return None
 
 
+class FindingGenefinding(DummyGenefinding):
+    """a genefinding module that annotates one fixed gene on records without genes (runs inside the worker processes)"""
+
+    @staticmethod
+    def run_on_record(record, _options):
+        from antismash.common.secmet.features import CDSFeature  # pylint: disable=import-outside-toplevel
+        from antismash.common.secmet.locations import FeatureLocation  # pylint: disable=import-outside-toplevel
+        if len(record.seq) >= 9:
+            record.add_cds_feature(CDSFeature(FeatureLocation(0, 9, 1), locus_tag=f"found_{record.id}", translation="MKK"))
+
+
 def make_config(extra=None):
     destroy_config()
     options = build_config(["--cpus", "1", "--minlength", "1"] + list(extra or []), isolated=True, modules=[DummyGenefinding])
+    update_config({"triggered_limit": False})
+    return options
+
+
+def make_config_with(genefinding, extra=None):
+    destroy_config()
+    options = build_config(["--minlength", "1"] + list(extra or []), isolated=True, modules=[genefinding])
     update_config({"triggered_limit": False})
     return options
